@@ -84,6 +84,7 @@ class CrashRun:
         self.maildir = ""
         self.cur_event = None
         self.model_A = None
+        self.mids = []
         self.enabled = False
         self.seen_hashes: dict = {}
         self.ever: dict = {}
@@ -132,6 +133,10 @@ class CrashRun:
                     acked = False
             if label.startswith("fs-") and ":os.link:" in label:
                 self.phase = "pack"
+            if getattr(h, "model", None) is not None and self.cur_event is not None:
+                sig = _model_sig(h.model)
+                if sig not in self.mids:
+                    self.mids.append(sig)
             meta = {
                 "idx": idx, "label": label, "tree": th, "acked": acked, "event": inflight, "phase": self.phase,
                 "step": getattr(h, "step", 0),
@@ -148,6 +153,8 @@ class CrashRun:
                 mdl = h.model
                 meta["A"] = _model_sig(self.model_A if self.model_A is not None else mdl) if mdl is not None else {}
                 meta["B"] = _model_sig(mdl) if mdl is not None else {}
+                # a composite event (STORE +\\Deleted then EXPUNGE) passes through acknowledged states in between
+                meta["mids"] = list(self.mids)
                 meta["revealed_live"] = _revealed(h) if mdl is not None else {}
                 meta["ever"] = {k: sorted(v) for k, v in self.ever.items()}
             self.points.append(meta)
@@ -190,6 +197,7 @@ class CrashRun:
                 self.cur_event = ev
                 self.phase = ""
                 self.model_A = h.model.clone()
+                self.mids = []
                 # the delivery agent is another process: its own writes are not crash points of the server
                 self.enabled = not (ev.get("s") == "env" and ev["op"] in ("deliver", "tick"))
                 h.apply(ev)
@@ -357,6 +365,11 @@ def boot_and_check(meta: dict, cfg: dict, history: list, prop="C11") -> list[Fai
                     if c and c.startswith("d"):
                         continue  # dropped by the external agent: its `unseen` mark was never acknowledged through IMAP
                     ok = [x for x in ([wb] if meta["acked"] else [wa, wb]) if x is not None]
+                    if not meta["acked"]:
+                        for mid in meta.get("mids", ()):
+                            for u2, c2, f2 in mid.get(nm, {}).get("msgs", ()):
+                                if (u2, c2) == (u, c) and f2 not in ok:
+                                    ok.append(f2)
                     if ok and f not in ok:
                         fail("C11.flags-lost", {"mbox": "INBOX" if nm == "INBOX" else "other"}, ok, f)
                 # revealed (vv, uid) -> cid and UIDNEXT
